@@ -26,6 +26,11 @@ def concretise(tokens, rnd):
             fn2.append(rnd.choice(F2))
         elif is_atom_tok(t):
             nums.append(rnd.choice([rnd.randint(1, 9), round(rnd.uniform(0.1, 9.9), 2), round(rnd.uniform(1.1, 3.0), 3)]))
+    # every third concretisation draws the numbers from a pool of equal and nearly equal values, so that
+    # comparisons are also exercised where their operands (almost) coincide
+    if rnd.random() < 0.34 and nums:
+        pool = rnd.choice([[7, 7, 7.0000001, 7.00001], [100000, 100001, 100000], [0.3, 0.30000000000000004, 0.3], [2, 2, 3]])
+        nums = [rnd.choice(pool) for _ in nums]
     return nums, fn1, fn2
 
 
